@@ -157,10 +157,19 @@ def run(ctx):
             arms = enum_arms(ii, "result::Result")
             err = (arms or {}).get("Err")
             retry = err is not None and tu[0].bb in b.reachable(err["target"]) and not any(b.term(x)["k"] == "return" for x in b.reachable(err["target"], cut={tu[0].bb}))
-            diverge = err is not None and any(b.term(x)["k"] == "call" and b.term(x).get("target") is None for x in b.reachable(err["target"], cut={tu[0].bb}))
+            diverge = err is not None and any(b.term(x)["k"] == "call" and b.term(x).get("target") is None and "debug_assert" not in str(b.term(x).get("expc") or "") + str(b.term(x).get("exp") or "") for x in b.reachable(err["target"], cut={tu[0].bb}))
             ok = own and from_ok and retry and not diverge
             detail = f"own Arc: {own}; returns the Ok payload: {from_ok}; Err arm retries: {retry}; Err arm can panic: {diverge}"
         peek = [c for c in nonforeign_calls(ii) if callee_method_name(c) in ("strong_count", "weak_count", "get_mut", "into_inner")]
+        if peek and ii.hir:
+            # a count read inside a debug_assert! decides nothing
+            from facts import walk as _hw2
+
+            dl_ = set()
+            for n_ in _hw2(ii.hir):
+                if n_.get("k") == "If" and "debug_assert" in str(n_.get("exp") or ""):
+                    dl_ |= {x.get("ln") for x in _hw2(n_) if x.get("k") in ("Call", "MethodCall")}
+            peek = [c for c in peek if not (callee_method_name(c) in ("strong_count", "weak_count") and c.line in dl_)]
         chk.ob("C20.b", ii.path, ok and not peek, "loop { match Arc::try_unwrap(self.handle) { Ok(r) => return r, Err(h) => retry } }" if ok and not peek else f"into_inner is not a pure try_unwrap retry loop ({detail}; count/peek calls {[callee_method_name(c) for c in peek]}): checking the strong count and then unwrapping is a check-then-act race with a concurrent upgrade", ii.loc())
     inst = one_method(chk, "C20.b", u, f"{RM}::RecoverableRecorder", "install")
     if inst:
